@@ -106,6 +106,10 @@ pub trait HasContext {
     }
 
     fn order(&self) -> usize {
+        if self.context().ordering.borrow().dirty {
+            self.context().rebuild_order();
+        }
+
         let cache_version = self.context().info.borrow().order_version;
         let order_version = self.context().ordering.borrow().version;
         if cache_version < order_version {
@@ -4184,6 +4188,18 @@ impl Context {
         self.id_map.borrow().get(&id).and_then(|v| v.upgrade())
     }
 
+    /// Document order is a property of the tree: after an edit, number the nodes attached to
+    /// the document again (element, namespace attributes, attributes, children). Nodes that
+    /// are not attached have no order.
+    fn rebuild_order(&self) {
+        self.ordering.borrow_mut().order.clear();
+        self.document().borrow().init_order_recursive();
+
+        let mut ordering = self.ordering.borrow_mut();
+        ordering.version += 1;
+        ordering.dirty = false;
+    }
+
     fn zero(&self) -> Context {
         Context {
             info: singleton(ContextInfo::default()),
@@ -4308,6 +4324,8 @@ impl fmt::Debug for ContextInfo {
 struct DocumentOrder {
     order: Vec<Weak<RefCell<ContextInfo>>>,
     version: usize,
+    /// The tree was edited since `order` was computed.
+    dirty: bool,
 }
 
 impl DocumentOrder {
@@ -4320,6 +4338,7 @@ impl DocumentOrder {
     }
 
     fn insert_after(&mut self, id: usize, info: &Singleton<ContextInfo>) -> Option<usize> {
+        self.dirty = true;
         self.remove(info.borrow().id);
 
         let order = self.get(id);
@@ -4333,6 +4352,7 @@ impl DocumentOrder {
     }
 
     fn insert_before(&mut self, id: usize, info: &Singleton<ContextInfo>) -> Option<usize> {
+        self.dirty = true;
         self.remove(info.borrow().id);
 
         let order = self.get(id);
@@ -4346,6 +4366,7 @@ impl DocumentOrder {
     }
 
     fn push(&mut self, info: &Singleton<ContextInfo>) -> (usize, usize) {
+        self.dirty = true;
         self.order.push(Rc::downgrade(info));
         (self.order.len(), self.version)
     }
@@ -4353,6 +4374,7 @@ impl DocumentOrder {
     fn remove(&mut self, id: usize) -> Option<usize> {
         let order = self.get(id);
         if order > 0 {
+            self.dirty = true;
             self.order.remove(order - 1);
             self.version += 1;
             Some(self.version)
